@@ -2558,6 +2558,25 @@ def m_next(ctx, it, *default):
             for (pick, k) in picks:
                 ia.rem[k] = b_and(ia.rem[k], b_not(b_and(g, pick)))
             empty = none_before
+        elif isinstance(ia, GSeq):
+            # a generator / generated sequence used as an iterator: `rem` holds, per entry, where it has not been consumed yet
+            if not hasattr(ia, 'rem'):
+                ia.rem = [ge for ge, _ in ia.entries]
+            none_before = True
+            val = UNDEF
+            picks = []
+            for i_, (ge, v) in enumerate(ia.entries):
+                pick = b_and(none_before, ia.rem[i_])
+                picks.append((pick, v))
+                none_before = b_and(none_before, b_not(ia.rem[i_]))
+                if none_before is False:
+                    break
+            for (pick, v) in reversed(picks):
+                if pick is not False:
+                    val = merge(pick, v, val)
+            for i_, (pick, v) in enumerate(picks):
+                ia.rem[i_] = b_and(ia.rem[i_], b_not(b_and(g, pick)))
+            empty = none_before
         elif isinstance(ia, ListIter):
             lst = ia.lst
             if not isinstance(ia.pos, int):
@@ -2863,6 +2882,15 @@ def m_product(ctx, *its, repeat=1):
     return GSeq([(g, t) for g, t in out if g is not False])
 
 
+COUNT_BOUND = 24
+
+
+def m_count(ctx, start=0, step=1):
+    """itertools.count(): the first COUNT_BOUND values; a consumer that needs more runs into StopIteration, which is then an
+    exception guard of the run (reported, never silently dropped) - the bound is an unwinding bound like any other"""
+    return GSeq([(True, start + k * step) for k in range(COUNT_BOUND)])
+
+
 def m_chain(ctx, *its):
     out = []
     for it in its:
@@ -2925,7 +2953,7 @@ def m_reduce(ctx, fn, it, *init):
         ctx.g = b_and(saved, b_not(lost))
     return acc
 
-MODELS = {_itertools.product: m_product, _itertools.chain: m_chain, _collections.deque: m_deque, enumerate: m_enumerate, zip: m_zip, reversed: m_reversed, weakref.ref: m_weakref_ref, weakref.WeakValueDictionary: m_dict, weakref.WeakKeyDictionary: m_dict, any: m_any, all: m_all, bool: m_bool, max: m_max, tuple: m_tuple, frozenset: m_frozenset, weakref.WeakSet: m_set, id: m_id, set: m_set, dict: m_dict, list: m_list, len: m_len, iter: m_iter, next: m_next, min: m_min,
+MODELS = {_itertools.product: m_product, _itertools.chain: m_chain, _itertools.count: m_count, _collections.deque: m_deque, enumerate: m_enumerate, zip: m_zip, reversed: m_reversed, weakref.ref: m_weakref_ref, weakref.WeakValueDictionary: m_dict, weakref.WeakKeyDictionary: m_dict, any: m_any, all: m_all, bool: m_bool, max: m_max, tuple: m_tuple, frozenset: m_frozenset, weakref.WeakSet: m_set, id: m_id, set: m_set, dict: m_dict, list: m_list, len: m_len, iter: m_iter, next: m_next, min: m_min,
           _operator.and_: _m_binop(ast.BitAnd()), _operator.or_: _m_binop(ast.BitOr()), _operator.xor: _m_binop(ast.BitXor()), _operator.add: _m_binop(ast.Add()), _operator.sub: _m_binop(ast.Sub()),
           _operator.invert: m_op_invert, _operator.inv: m_op_invert, _operator.not_: m_op_not, _functools.reduce: m_reduce,
           isinstance: m_isinstance, getattr: m_getattr, hasattr: m_hasattr, super: m_super, range: m_range, sum: m_sum, str: m_str, sorted: m_sorted}
